@@ -356,12 +356,36 @@ def _custom_pair(c):
         return {"err": "other:" + type(e).__name__}
 
 
+def _kline_first_offence(text, n, marker, plus):
+    """independent reference for the FASTA/FASTQ-style formats: the lines are framed in groups of n BY POSITION (what a line is, is decided
+    by where it stands, not by its first character — a quality line may start with '@' or '+'); the first group whose first line does not
+    start with the marker, whose third line does not start with '+' (FASTQ), or that is cut short, is the first offending record"""
+    lines = text.split("\n")
+    if lines and lines[-1] == "":
+        lines = lines[:-1]
+    while lines and lines[-1].strip("\r") == "":
+        lines = lines[:-1]          # blank lines at the end are not a record
+    for g in range(0, len(lines), n):
+        grp = lines[g:g + n]
+        if not grp[0].startswith(marker):
+            return g
+        if len(grp) < n:
+            return g
+        if plus and not grp[2].startswith("+"):
+            return g + 2
+    return None
+
+
 def oracle(c):
     if c["op"] in ("row_matrix", "row_ragged"):
         return c["row"]
     if c["op"] == "custom_pair":
         return {"must_error": True, "line_lo": c["i"], "line_hi": c["i"]}
     n = LINES.get(c["fmt"], 1)
+    if c["fmt"] in LINES:
+        first = _kline_first_offence(_text(c), n, "@" if c["fmt"] == "fastq" else ">", c["fmt"] == "fastq")
+        if first is not None:
+            return {"must_error": True, "line_lo": first, "line_hi": first}
     if c["kind"] == "multi":
         first = min(i * n + (2 if kind == "plus" else 0) for i, kind in c["viol"])
         return {"must_error": True, "line_lo": first, "line_hi": first}
